@@ -143,13 +143,16 @@ class C07Rules(FoldRules):
             ]
             if not dedups:
                 return False, f"`{C}` is not de-duplicated (list(set(..))) before the test"
-            last = max(dedups, key=lambda s: s.lineno)
+            from ..core import order_index
+
+            oi = order_index(fn)
+            last = max(dedups, key=lambda s: oi[id(s)])
             later = [
                 n for n in walk_local(fn)
                 if isinstance(n, ast.Call) and isinstance(n.func, ast.Attribute) and isinstance(n.func.value, ast.Name)
-                and n.func.value.id == C and n.func.attr in ("append", "extend", "insert") and n.lineno > last.lineno
+                and n.func.value.id == C and n.func.attr in ("append", "extend", "insert") and oi[id(n)] > oi[id(last)]
             ]
-            if later or last.lineno > ret.lineno:
+            if later or oi[id(last)] > oi[id(ret)]:
                 return False, f"`{C}` grows again after the de-duplication"
             return True, f"len({C}) == 1 after {norm(last)[:50]}"
         # (b) G is set(<resource projection of C>)
